@@ -264,7 +264,8 @@ class LiteralMarshaller(AbstractMarshaller[LiteralT], tp.Generic[LiteralT]):
         Raises:
             ValueError: If `val` is not a member of the bound `Literal` type.
         """
-        if val in self.values:
+        # Literal members are matched by type and value: `True` is not `Literal[1]`.
+        if any(val.__class__ is v.__class__ and val == v for v in self.values):
             return val  # type: ignore[return-value]
 
         raise ValueError(f"{val!r} is not one of {self.values!r}")
